@@ -41,6 +41,29 @@ Proof.
 Qed.
 Print Assumptions C10_shard_state_is_map_and_mutex.
 
+(* BEYOND race freedom.  While a thread holds the read lock of a shard, no step of another thread changes that shard ... *)
+From VF Require Proofs.SnapshotProofs.
+Import Proofs.SnapshotProofs.
+Theorem C10_read_locked_shard_is_stable : forall g m i g' m' j s,
+  Inv g -> mstep (g, m) i (g', m') -> i <> j -> holds_r g j s -> m' s = m s.
+Proof. exact read_locked_shard_is_stable. Qed.
+Print Assumptions C10_read_locked_shard_is_stable.
+
+(* ... so over any stretch of an execution during which a thread holds a shard's read lock (and does not write the shard
+   itself) the shard is at the end what it was at the beginning: Dump, which the regenerated skeleton shows holding the read
+   locks of ALL shards around the marshalling of all maps, writes every shard as it was at one single moment (a consistent
+   snapshot of complete templates), and a lookup sees the map as it is while it holds the lock: with every insert that
+   completed before the lookup began *)
+Theorem C10_snapshot_consistent : forall j s x y, Inv (fst x) -> segment j s x y -> Inv (fst y) /\ snd y s = snd x s.
+Proof. exact snapshot_consistent. Qed.
+Print Assumptions C10_snapshot_consistent.
+
+(* the Dump of both caches does have that shape in the source: all read locks, then the read of everything, then the unlocks *)
+Theorem C10_dump_reads_under_all_read_locks :
+  Gen.Locks.ipfix_dump = [PAll [PRLock]; PReadAll; PAll [PRUnlock]] /\ Gen.Locks.nf9_dump = [PAll [PRLock]; PReadAll; PAll [PRUnlock]].
+Proof. split; reflexivity. Qed.
+Print Assumptions C10_dump_reads_under_all_read_locks.
+
 (* the generic theorem on its own: any programs accepted by the checker *)
 Theorem C10_checker_sound : forall g0 g, Inv g0 -> reachable g0 g -> ~ race g.
 Proof. exact race_free. Qed.
